@@ -88,6 +88,11 @@ func (e *OpEngine) RunProgram(p *Program, st *WalkStats) {
 				args = []interp.Value{vals[s.A], interp.FloatV{E: sym.SymE(fmt.Sprintf("k%d", si))}}
 			case "Exp", "Tanh", "Sin":
 				args = []interp.Value{vals[s.A]}
+			case "Pow0":
+				// exponent 0: the result is constant, the operand's gradient is an all-zero tensor built by the rule's
+				// zero helper — the only kind of upstream gradient that does not descend from the seed
+				fn = e.method("Pow")
+				args = []interp.Value{vals[s.A], interp.FloatV{E: sym.Expr{}}}
 			case "ReshapeSame":
 				// a shape operation that keeps the shape: the element expression is unchanged
 				fn = e.method("Reshape")
@@ -257,6 +262,8 @@ func (e *OpEngine) RunProgram(p *Program, st *WalkStats) {
 					addTo(s.A, sym.Mul(G[i], sym.PowInt(sym.FnE("cosh", F[s.A]), -2)))
 				case "Sin":
 					addTo(s.A, sym.Mul(G[i], sym.FnE("cos", F[s.A])))
+				case "Pow0":
+					// zero contribution
 				case "ReshapeSame", "Flatten0", "ElMaxSelf", "BroadcastSame":
 					addTo(s.A, G[i])
 				case "Add":
@@ -466,6 +473,8 @@ func TemplatePrograms() []*Program {
 		{Name: "identity-broadcast-of-intermediate", Leaves: []bool{T}, Steps: []PStep{{"Exp", 0, 0}, {"BroadcastSame", 1, 0}, {"Scale", 2, 0}}},
 		{Name: "identity-broadcast-as-root", Leaves: []bool{T}, Steps: []PStep{{"Scale", 0, 0}, {"BroadcastSame", 1, 0}}},
 		{Name: "flatten-of-intermediate-fanout", Leaves: []bool{T}, Steps: []PStep{{"Scale", 0, 0}, {"Flatten0", 1, 0}, {"Mul", 2, 1}}},
+		{Name: "zero-gradient-through-product", Leaves: []bool{T, T}, Steps: []PStep{{"Mul", 0, 1}, {"Pow0", 2, 0}}},
+		{Name: "zero-gradient-joins-live-branch", Leaves: []bool{T, T}, Steps: []PStep{{"Mul", 0, 1}, {"Pow0", 2, 0}, {"Exp", 2, 0}, {"Add", 3, 4}}},
 		{Name: "root-is-leaf", Leaves: []bool{T}, Steps: nil, Roots: []int{0}},
 		{Name: "intermediate-root", Leaves: []bool{T}, Steps: []PStep{{"Exp", 0, 0}, {"Scale", 1, 0}}, Roots: []int{1}},
 	}
